@@ -8,3 +8,4 @@ import PysamlModel.Props.C05
 #print axioms C05.C05_model_meets_spec_sound
 #print axioms C05.C05_inside_accepted
 #print axioms C05.C05_model_meets_spec_complete
+#print axioms C05.C05_windows_attr
